@@ -203,13 +203,22 @@ def replay(ctx, payload):
 
 MANIFEST = {
 	'level_text': (
-		'Lean theorems over the model of the CATS parser: see Properties/C11.lean (fail-fast: a document is accepted only if every logical line is '
-		'accepted in its context, nothing is returned otherwise; rejection theorems for the catalogue operators, which are defined in Lean in '
-		'Model/Cats/Corrupt.lean). The model and the operators are tied to catbuffer.lark / CatsLarkParser.py by a differential run: every shipped '
-		'.cats file and grammar-directed generated documents x 14 operators x applicable sites must be rejected by lark with a position, and through '
-		'`python -m catparser` a corrupted file reached by import must give a non-zero exit status and no output file.'),
+		'Lean theorems over the model of the CATS parser, Properties/C11.lean: parse_fail_fast / accepted_lines (for every document: one line '
+		'that no line parser accepts in any context rejects the whole document, nothing is returned otherwise), '
+		'missing_final_newline_rejected and leading_blank_line_rejected (all documents), and per catalogue operator a rejection theorem '
+		'quantified over all well-formed names / types / numbers and an arbitrary rest of the line: using_line_rejected with the alias '
+		'corollaries (bad width, one-character name, wrong case, missing `=`, missing operand), bad_width_member_rejected, '
+		'one_char_member_name_rejected, wrong_case_member_name_rejected, unknown_statement_keyword_rejected, unknown_member_keyword_rejected, '
+		'unknown_const_keyword_rejected, unknown_if_rejected, unknown_attribute_rejected, unknown_transform_rejected, '
+		'unknown_condition_operator_rejected, missing_open_bracket_rejected, missing_close_bracket_array_rejected, wrong_arity_*_rejected, and '
+		'on printed documents empty_struct_rejected and dedented_member_rejected (with member_outside_declaration_rejected). The operators '
+		'themselves are defined in Model/Cats/Corrupt.lean. Model and operators are tied to catbuffer.lark / CatsLarkParser.py by a differential '
+		'run: every shipped .cats file and generated documents x 14 operators x applicable sites must be rejected by lark with a position, and '
+		'through `python -m catparser` a corrupted file reached by import must give a non-zero exit status and no output file.'),
 	'level_note': (
 		'Trusted: Lean kernel + {propext, Classical.choice, Quot.sound}; hand-written model and operator definitions tied by differential execution '
-		'only; lark\'s LALR engine is not modelled. DedentError carries only a column in its message.'),
+		'only; lark\'s LALR engine is not modelled. The theorems are about line shapes / printed documents, not about the text surgery of '
+		'Corrupt.variants (tied by the run only); sites without a theorem are listed in the header of Properties/C11.lean. DedentError carries '
+		'only a column in its message.'),
 	'technique': 'Lean 4 theorems over a hand-written model + differential correspondence with the Python implementation',
 }
